@@ -249,6 +249,26 @@ theorem tapeTan_getD (seed : Nat → R) (ops : Tape R) (i : Nat) (hi : i < ops.l
 
 end Tan
 
+/-! ### the appenders -/
+
+section Append
+variable {R : Type} [Zero R]
+
+theorem foldl_snoc_length {α β : Type} (f : β → α) (l : List β) (acc : List α) :
+    (l.foldl (fun acc i => acc ++ [f i]) acc).length = acc.length + l.length := by
+  induction l generalizing acc with
+  | nil => simp
+  | cons x xs ih => simp only [List.foldl_cons, ih, List.length_append, List.length_cons,
+      List.length_nil]; omega
+
+theorem appendNullaryRepeating_length (t : Tape R) (n : Nat) :
+    (t.appendNullaryRepeating n).2.length = t.length + n := by
+  simp only [Tape.appendNullaryRepeating]
+  rw [foldl_snoc_length (fun i => (⟨t.length + i, t.length + i, 0, 0⟩ : Op R))]
+  simp
+
+end Append
+
 /-! ### the reverse sweep -/
 
 section Sweep
